@@ -3,7 +3,9 @@
 
 #include <aws/common/allocator.h>
 
+#include <ctype.h>
 #include <errno.h>
+#include <locale.h>
 #include <fcntl.h>
 #include <pthread.h>
 #include <stdlib.h>
@@ -194,6 +196,8 @@ static FILE *open_out(const char *stem, const char *mode) {
     return f;
 }
 
+static bool s_locale_active;
+
 int mon_init(int argc, char **argv, const char *prop) {
     memset(&mon_run, 0, sizeof(mon_run));
     mon_run.prop = prop;
@@ -263,6 +267,18 @@ int mon_init(int argc, char **argv, const char *prop) {
     s_progress[1] = 0;
     s_progress[2] = 0; /* cases completed */
     clock_gettime(CLOCK_MONOTONIC, &s_t0);
+    if (getenv("VERIF_SETLOCALE")) {
+        /* stages that run the library in a process whose libc <ctype.h> classification is not the C locale's
+         * (tools/mk_locale.py: single-byte locale, 0xC0-0xFF are letters with case, 0xA0 is a space) */
+        const char *got = setlocale(LC_ALL, "");
+        if (!got || !isalnum(0xE9) || tolower(0xC9) != 0xE9 || !isspace(0xA0)) {
+            fprintf(stderr, "mon: the 8-bit locale is not active (setlocale returned %s)\n", got ? got : "NULL");
+            exit(2);
+        }
+        mon_note("process locale: %s (isalnum(0xE9)=1, tolower(0xC9)=0xE9, isspace(0xA0)=1)", got);
+        s_locale_active = true;
+        mon_count("processes_run_under_8bit_locale", 1);
+    }
     return 0;
 }
 
